@@ -247,6 +247,15 @@ class Check:
     # -- tie
     def tie(self, targets: Sequence[str]):
         self.tie_res = tie(self.id, targets)
+        if self.thorough and self.tie_res["build_ok"]:
+            # independent re-check of the compiled proofs (kernel replay of the .olean files)
+            ok, log = leanchecker([f"MimicProps.{self.id}"])
+            self.tie_res["leanchecker_ok"] = ok
+            self.notes.append("leanchecker MimicProps.%s: %s" % (self.id, "ok" if ok else "FAILED"))
+            if not ok:
+                self.tie_res["ok"] = False
+                self.tie_res["build_ok"] = False
+                self.tie_res["build_log"] = "leanchecker rejected the compiled module:\n" + log
         return self.tie_res
 
     def run_replays(self, names: Sequence[str]):
